@@ -442,11 +442,15 @@ def gen_dtc(rng, n, nrec_max=6):
             body = b''
             for i in range(nrec):
                 idb, st = nz(3), rng.randrange(256)
+                if rng.random() < 0.25:
+                    idb = b'\x00' + nz(2)                      # identifiers below 0x010000 (P00xx codes): a record is "all zero" only if every byte is
+                if g == 'rec4' and rng.random() < 0.1:
+                    idb, st = bytes(3), rng.randrange(1, 256)  # DTC 0 with a status is a record, not padding
                 if g == 'rec4':
                     body += idb + bytes([st])
                     recs.append('%d:%d:0:-:-:-:-' % (int.from_bytes(idb, 'big'), st))
                 else:
-                    sev, fu = rng.randrange(256), rng.randrange(256)
+                    sev, fu = rng.choice([0, 0, 0x20, 0xE0, rng.randrange(256)]), rng.choice([0, 0, rng.randrange(256)])
                     body += bytes([sev, fu]) + idb + bytes([st])
                     recs.append('%d:%d:%d:%d:-:-:-' % (int.from_bytes(idb, 'big'), st, sev & 0xE0, fu))
             good = hdr + body
